@@ -247,3 +247,114 @@ def compxs_rewrite_of_what_was_read_is_the_same_file(ncomp: int, ng: int, maxord
     assert st2.nwrites() == st.nwrites(), "same number of records"
     for k in range(st.nwrites()):
         assert st2.written(k) == st.written(k), "same bytes"
+
+
+BinaryRecordReader = repo("armi.nuclearDataIO.cccc.cccc:BinaryRecordReader")
+G_BAND = {}
+for _k in range(9):
+    G_BAND["x%d" % _k] = F64
+for _k in range(15):
+    G_BAND["w%d" % _k] = F64
+
+
+@lemma(gen=G_BAND, overrides=OVERRIDES)
+def compxs_group_record_layout(x0: float, x1: float, x2: float, x3: float, x4: float, x5: float, x6: float, x7: float, x8: float,
+                               w0: float, w1: float, w2: float, w3: float, w4: float, w5: float, w6: float, w7: float, w8: float,
+                               w9: float, w10: float, w11: float, w12: float, w13: float, w14: float):
+    """layout of the group record on the file (not only that reader and writer agree), read back field by field from a
+    file written by the real code (1 composition, 2 groups, full scattering band, not fissionable, P0 only): XA, XTOT,
+    XREM, XTR, then the scattering INTO the group from group J + NUP down to J - NDN (up-scatter, in-group, down-scatter),
+    then PC and the directional diffusion numbers, then XN2N."""
+    x = [x0, x1, x2, x3, x4, x5, x6, x7, x8]
+    w = [w0, w1, w2, w3, w4, w5, w6, w7, w8, w9, w10, w11, w12, w13, w14]
+    lib, vals = compxs_library(1, 2, 0, True, [0, 0], x, [w, w])
+    st = memstream()
+    compxs_io("wb", st, lib).readWrite()
+    st.seek(0)
+    with BinaryRecordReader(st) as r:
+        r.rwList(None, "int", 10)
+    with BinaryRecordReader(st) as r:
+        r.rwList(None, "double", 5)
+        r.rwList(None, "int", 1)
+    with BinaryRecordReader(st) as r:
+        spec = r.rwList(None, "int", 5)
+    assert list(spec) == [0, 1, 0, 0, 1], "ISPEC, NUP per group, NDN per group"
+    s = [[w14, w14 + 2.0], [w14 + 1.0, w14 + 3.0]]  # s[from][into] as built by compxs_library (row = source, column = sink)
+    for g in range(2):
+        with BinaryRecordReader(st) as r:
+            head = r.rwList(None, "double", 4)
+            band = r.rwList(None, "double", 2)
+            tail = r.rwList(None, "double", 8)
+        for i in range(4):
+            assert eq(head[i], w[6 + i] + g), "absorption, total, removal, transport"
+        if g == 0:
+            assert eq(band[0], s[1][0]) and eq(band[1], s[0][0]), "group 1: from group 2 (up-scatter), then in-group"
+        else:
+            assert eq(band[0], s[1][1]) and eq(band[1], s[0][1]), "group 2: in-group, then from group 1 (down-scatter)"
+        assert eq(tail[0], w0 + g), "power conversion factor follows the scattering band"
+        assert eq(tail[7], w10 + g), "n2n closes the record"
+
+
+# ----------------------------------------------------------------------------- fields of a group record follow the composition's flags
+CompxsRegionIO = repo("armi.nuclearDataIO.cccc.compxs:_CompxsRegionIO")
+XSCollection = repo("armi.nuclearDataIO.xsCollections:XSCollection")
+RegionXSMetadata = repo("armi.nuclearDataIO.nuclearFileMetadata:RegionXSMetadata")
+
+
+class FieldProbe:
+    """stand-in for a binary record in writing mode: notes kind (and item type, length) of every field, returns what it
+    is given"""
+
+    def __init__(self):
+        self.trace = []
+
+    def rwDouble(self, val):
+        self.trace.append("double")
+        return val
+
+    def rwList(self, contents, containedType, length, strLength=0):
+        self.trace.append((containedType, length))
+        return contents
+
+
+class Holder:
+    """stand-in for the library (compxsMetadata) and the region (metadata, macros) of a _CompxsRegionIO"""
+
+
+@lemma(gen={"group": (0, 1), "maxord": (0, 2), "full": [False, True], "ispec": (0, 3), "nfam": (0, 3)}, overrides=OVERRIDES)
+def compxs_group_record_fields_follow_the_flags(group: int, maxord: int, full: bool, ispec: int, nfam: int, a: float):
+    """fields of one COMPOSITION MACROSCOPIC GROUP CROSS SECTIONS record for EVERY ISPEC (chi vectors) and EVERY number of
+    delayed families of the composition (symbolic), MAXORD 0..2, group 1..2 of 2, in-group / full band (enumerated):
+    4 doubles; fission, nu-fission and ISPEC chi values iff ISPEC > 0; the P0 band (NUP + 1 + NDN doubles); 7 doubles
+    (power conversion, directional diffusion); the precursor family numbers iff the composition has families; n2n; one
+    band per higher order - in this order (real _rwGroup4DRecord, _rwPrimaryXS, _rwScatteringMatrix,
+    _flattenScatteringVector; stand-ins: FieldProbe for the record, Holder; the matrices are CscStandIn)."""
+    group, maxord = choose(group, 0, 1), choose(maxord, 0, 2)
+    assume(ispec >= 0 and nfam >= 0)
+    nup, ndn = bands(2, full)
+    rm = RegionXSMetadata()
+    rm["chiFlag"], rm["numUpScatterGroups"], rm["numDownScatterGroups"], rm["numPrecursorFamilies"] = ispec, nup, ndn, nfam
+    for key in DIFF:
+        rm[key] = [a, a]
+    rm["numPrecursorsProduced", group] = "families"
+    macros = XSCollection(parent=None)
+    for name in PRIMARY + ["fission", "nuSigF"]:
+        macros[name] = np.array([a, a])
+    macros["chi"] = ["chi of group 1", "chi of group 2"]
+    macros.totalScatter = csc([[a, a], [a, a]])
+    for order in range(1, maxord + 1):
+        macros.higherOrderScatter[order] = csc([[a, a], [a, a]])
+    fm = RegionXSMetadata()
+    fm["maxScatteringOrder"] = maxord
+    rio = new(CompxsRegionIO, _lib=new(Holder, compxsMetadata=fm), _region=new(Holder, metadata=rm, macros=macros), _isReading=False, _numGroups=2)
+    rec = FieldProbe()
+    rio._rwGroup4DRecord(rec, group, macros)
+    band = ("double", nup[group] + 1 + ndn[group])
+    expected = ["double"] * 4
+    if ispec > 0:
+        expected = expected + ["double", "double", ("double", ispec)]
+    expected = expected + [band] + ["double"] * 7
+    if nfam > 0:
+        expected = expected + [("int", nfam)]
+    expected = expected + ["double"] + [band] * maxord
+    assert rec.trace == expected, "fields exactly as the composition's flags announce, in file order"
